@@ -25,6 +25,11 @@ def mulPixelscale (a b : Option (Int × Int)) : Except String (Option (Int × In
 
 variable {K R M : Type}
 
+/-- what the model needs of the type of focal lengths: Python truthiness (`None` and `0` are falsy) and `np.inf` -/
+class FocalLike (M : Type) where
+  truthy : M → Bool
+  inf : M
+
 /-- a `Wf` from the generated hand-over record (plane types are C08's: `Unit` here) and the data -/
 def Wf.ofHandover (h : Gen.WfHandover M (Option (Int × Int)) (Option (Int × Int)) Unit) (data : List (Fld K)) : Wf K M :=
   { wavelength := h.wavelength, focal := h.focal_length, pixelscale := h.pixelscale, shape := h.shape, data := data }
@@ -35,22 +40,25 @@ def Wf.handover (w : Wf K M) : Gen.WfHandover M (Option (Int × Int)) (Option (I
 /-- `Plane.multiply(wavefront)`; `phOf wavelength opd` stands for `exp(2 pi i opd / wavelength)`. Which attribute of which
 operand goes where is the *generated* `Gen.planeMultiplyHandover` / `planeMultiplyPixelscaleArgs` / `planeMultiplyShape`
 (read off `Plane.multiply`'s `lentil.Wavefront.empty(...)` call on every run). -/
-def planeMultiplyW [Zero K] [Mul K] (phOf : M → R → K) (p : PlaneM K R) (ppx : Option (Int × Int)) (w : Wf K M) :
+def planeMultiplyW [Zero K] [Mul K] [FocalLike M] (phOf : M → R → K) (p : PlaneM K R) (ppx : Option (Int × Int)) (w : Wf K M) :
     Except String (Wf K M) :=
   let args := Gen.planeMultiplyPixelscaleArgs ppx w.pixelscale
   (mulPixelscale args.1 args.2).map fun px =>
-    Wf.ofHandover (Gen.planeMultiplyHandover w.wavelength px w.focal (Gen.planeMultiplyShape p.shape w.shape) ())
+    -- `Wavefront.empty(...)` builds the new wavefront through `Wavefront.__init__`, whose (generated) normalisation of the
+    -- focal length replaces a falsy value by `np.inf`
+    let h := Gen.planeMultiplyHandover w.wavelength px w.focal (Gen.planeMultiplyShape p.shape w.shape) ()
+    Wf.ofHandover { h with focal_length := Gen.wavefrontInitFocal FocalLike.truthy FocalLike.inf h.focal_length }
       (planeMultiply (phOf w.wavelength) p w.data)
 
 /-- `Pupil.multiply(wavefront)`: as `Plane.multiply`, then the generated `Gen.pupilMultiplyHandover` (the wavefront takes the
 pupil's focal length) -/
-def pupilMultiplyW [Zero K] [Mul K] (phOf : M → R → K) (p : PlaneM K R) (ppx : Option (Int × Int)) (fl : M) (w : Wf K M) :
+def pupilMultiplyW [Zero K] [Mul K] [FocalLike M] (phOf : M → R → K) (p : PlaneM K R) (ppx : Option (Int × Int)) (fl : M) (w : Wf K M) :
     Except String (Wf K M) :=
   (planeMultiplyW phOf p ppx w).map fun w' => Wf.ofHandover (Gen.pupilMultiplyHandover w'.handover fl) w'.data
 
 /-- `Image.multiply(wavefront)`: as `Plane.multiply`, then the generated `Gen.imageMultiplyHandover` (only the plane type is
 set; plane types themselves are C08's and are not carried by `Wf`) -/
-def imageMultiplyW [Zero K] [Mul K] (phOf : M → R → K) (p : PlaneM K R) (ppx : Option (Int × Int)) (w : Wf K M) :
+def imageMultiplyW [Zero K] [Mul K] [FocalLike M] (phOf : M → R → K) (p : PlaneM K R) (ppx : Option (Int × Int)) (w : Wf K M) :
     Except String (Wf K M) :=
   (planeMultiplyW phOf p ppx w).map fun w' => Wf.ofHandover (Gen.imageMultiplyHandover w'.handover ()) w'.data
 
